@@ -72,6 +72,8 @@ impl<'a> BufRead for LogSrc<'a> {
 #[derive(Clone, Copy, Debug, PartialEq)]
 pub enum Fmt {
     Lzma(Opt),
+    /// the same file through the raw building blocks: LzmaParams::read_header + LzmaDecoder::new + decompress
+    LzmaRaw(Opt),
     Lzma2,
     Xz,
 }
@@ -88,6 +90,15 @@ fn decode_with<R: BufRead>(fmt: Fmt, rd: &mut R) -> (Verdict, Vec<u8>, String) {
     let c = catch(|| -> Result<(), String> {
         match fmt {
             Fmt::Lzma(o) => lzma_rs::lzma_decompress_with_options(rd, &mut out, &api::options(o, None, false)).map_err(|e| format!("{:?}", e)),
+            Fmt::LzmaRaw(o) => {
+                use lzma_rs::decompress::raw::{LzmaDecoder, LzmaParams};
+                (|| -> Result<(), lzma_rs::error::Error> {
+                    let params = LzmaParams::read_header(rd, &api::options(o, None, false))?;
+                    let mut d = LzmaDecoder::new(params, None)?;
+                    d.decompress(rd, &mut out)
+                })()
+                .map_err(|e| format!("{:?}", e))
+            }
             Fmt::Lzma2 => lzma_rs::lzma2_decompress(rd, &mut out).map_err(|e| format!("{:?}", e)),
             Fmt::Xz => lzma_rs::xz_decompress(rd, &mut out).map_err(|e| format!("{:?}", e)),
         }
@@ -171,13 +182,22 @@ pub fn gen_inputs(rng: &mut StdRng, n: usize, with_trailing: bool) -> Vec<Input>
         d.extend_from_slice(&enc.payload);
         let pl = d.len();
         d.extend_from_slice(&trailing);
+        v.push(Input { fmt: Fmt::LzmaRaw(Opt::ReadFromHeader), data: d.clone(), name: format!("lzma-sized-rawapi/{}syms+{}", ns, trailing.len()), payload_len: Some(pl) });
         v.push(Input { fmt: Fmt::Lzma(Opt::ReadFromHeader), data: d, name: format!("lzma-sized/{}syms+{}", ns, trailing.len()), payload_len: Some(pl) });
         // LZMA, 5-byte header, size supplied
         let mut d = lzma_header(p, 4096, None);
         d.extend_from_slice(&enc.payload);
         let pl = d.len();
         d.extend_from_slice(&trailing);
+        v.push(Input { fmt: Fmt::LzmaRaw(Opt::UseProvided { n: Some(len) }), data: d.clone(), name: format!("lzma-provided-rawapi/{}syms+{}", ns, trailing.len()), payload_len: Some(pl) });
         v.push(Input { fmt: Fmt::Lzma(Opt::UseProvided { n: Some(len) }), data: d, name: format!("lzma-provided/{}syms+{}", ns, trailing.len()), payload_len: Some(pl) });
+        // LZMA, 13-byte header whose size field is read and ignored, size supplied
+        let mut d = lzma_header(p, 4096, Some(if i % 2 == 0 { u64::MAX } else { len + 3 }));
+        d.extend_from_slice(&enc.payload);
+        let pl = d.len();
+        d.extend_from_slice(&trailing);
+        v.push(Input { fmt: Fmt::LzmaRaw(Opt::ReadHeaderButUseProvided { n: Some(len) }), data: d.clone(), name: format!("lzma-header-ignored-rawapi/{}syms+{}", ns, trailing.len()), payload_len: Some(pl) });
+        v.push(Input { fmt: Fmt::Lzma(Opt::ReadHeaderButUseProvided { n: Some(len) }), data: d, name: format!("lzma-header-ignored/{}syms+{}", ns, trailing.len()), payload_len: Some(pl) });
         // LZMA with marker: trailing bytes must be rejected
         let mut pm = prog.clone();
         pm.push(Sym::Eos);
@@ -185,6 +205,7 @@ pub fn gen_inputs(rng: &mut StdRng, n: usize, with_trailing: bool) -> Vec<Input>
         let mut d = lzma_header(p, 4096, Some(u64::MAX));
         d.extend_from_slice(&encm.payload);
         d.extend_from_slice(&trailing);
+        v.push(Input { fmt: Fmt::LzmaRaw(Opt::ReadFromHeader), data: d.clone(), name: format!("lzma-marker-rawapi/{}syms+{}", ns, trailing.len()), payload_len: None });
         v.push(Input { fmt: Fmt::Lzma(Opt::ReadFromHeader), data: d, name: format!("lzma-marker/{}syms+{}", ns, trailing.len()), payload_len: None });
         // LZMA2
         let lp = Props { lc: p.lc.min(4), lp: p.lp.min(4 - p.lc.min(4)), pb: p.pb };
@@ -307,7 +328,7 @@ pub fn run_c11(prop: &str, seed: u64, n: usize, rep: &mut Report) {
     let inputs = gen_inputs(&mut rng, n, true);
     for inp in &inputs {
         let e = match inp.fmt {
-            Fmt::Lzma(o) => Some(expect_lzma(&inp.data, o, None)),
+            Fmt::Lzma(o) | Fmt::LzmaRaw(o) => Some(expect_lzma(&inp.data, o, None)),
             Fmt::Lzma2 => Some(expect_lzma2(&inp.data)),
             Fmt::Xz => None,
         };
@@ -359,11 +380,19 @@ pub fn run_c11(prop: &str, seed: u64, n: usize, rep: &mut Report) {
 pub fn replay_value(v: &Value, prop: &str, rep: &mut Report) {
     let data = unhex(v["data_hex"].as_str().unwrap());
     let fs = v["fmt"].as_str().unwrap_or("");
+    let rawapi = fs.starts_with("LzmaRaw");
     let fmt = if fs.starts_with("Lzma2") { Fmt::Lzma2 } else if fs.starts_with("Xz") { Fmt::Xz } else if fs.contains("UseProvided") && !fs.contains("ReadHeader") {
         // the provided size is recovered from the oracle-free path: decode with the marker-less size = unknown is not possible; use header-less size from the text
         let n: Option<u64> = fs.split("Some(").nth(1).and_then(|t| t.split(')').next()).and_then(|t| t.parse().ok());
         Fmt::Lzma(Opt::UseProvided { n })
+    } else if fs.contains("ReadHeaderButUseProvided") {
+        let n: Option<u64> = fs.split("Some(").nth(1).and_then(|t| t.split(')').next()).and_then(|t| t.parse().ok());
+        Fmt::Lzma(Opt::ReadHeaderButUseProvided { n })
     } else { Fmt::Lzma(Opt::ReadFromHeader) };
+    let fmt = match fmt {
+        Fmt::Lzma(o) if rawapi => Fmt::LzmaRaw(o),
+        f => f,
+    };
     let kind = v["reader"].as_str().unwrap_or("slice").to_string();
     let param: Vec<usize> = v["param"].as_array().map(|a| a.iter().map(|x| x.as_u64().unwrap() as usize).collect()).unwrap_or_default();
     let r0 = run_kind(fmt, &data, "slice", &[], None);
